@@ -6,7 +6,8 @@
      weed/filer/leveldb{,2,3}/         ListDirectoryPrefixedEntries (start key / prefix break / limit)
    Executable definitions only, faithful to the code as it is (with the repairs
    "fix: splitPattern ...", "fix: leveldb start below prefix", "fix: prefixFilterEntries
-   lastFileName", "fix: refill keeps lastFileName"); proofs are in proof/Listing*.v.
+   lastFileName", "fix: refill keeps lastFileName", "fix: a listing callback that returned
+   false is not called again"); proofs are in proof/Listing*.v.
 
    A directory is the list of its children (name, expired?) in byte order of the
    names.  "expired" = TtlSec > 0 and Crtime + TtlSec is in the past at listing
@@ -328,46 +329,50 @@ Fixpoint paginate_stream (fuel : nat) (s : store) (d : dirst) (start : string) (
 (* ---------- callbacks that stop early (return false) ---------- *)
 (* The caller's callback (eachEntryFunc) = the list of its successive answers; it answers true
    once the list is exhausted.  Below the Filer the callback chain is: doListDirectoryEntries'
-   closure (expired: delete, expiredCount++, return true), then doListPatternMatchedEntries'
-   closure (missed: missedCount++, return true), then eachEntryFunc.  [ms] = "missed";
-   the caller's callback sees exactly the entries with [passes ms e]. *)
+   closure (expired: delete, expiredCount++, return true), then doListValidEntries' eachFunc
+   (remembers a false in `stopped`), then doListPatternMatchedEntries' closure (missed:
+   missedCount++, return true), then StreamListDirectoryEntries' eachFunc (remembers a false in
+   its own `stopped`), then eachEntryFunc.  [ms] = "missed"; the caller's callback sees exactly
+   the entries with [passes ms e].  (With "fix: a listing callback that returned false is not
+   called again" both eachFunc wrappers also short-circuit once stopped; every modelled store
+   ends its scan at the first false, so the short-circuit is never reached here.) *)
 Definition passes (ms : string -> bool) (e : entry) : bool := elive e && negb (ms (ename e)).
 
 (* one invocation of the chain on entry e: (answers left, returned value) *)
 Definition cb_step (ms : string -> bool) (ans : list bool) (e : entry) : list bool * bool :=
   if passes ms e then match ans with a :: ans' => (ans', a) | [] => ([], true) end else (ans, true).
 
-(* entries handed to the chain and answers left *)
-Record hres := { h_vis : list entry; h_ans : list bool }.
+(* entries handed to the chain, answers left, did the chain return false *)
+Record hres := { h_vis : list entry; h_ans : list bool; h_stop : bool }.
 
 (* leveldb loop body with `if !eachEntryFunc(entry) { break }` *)
 Fixpoint lvl_iter_s (ms : string -> bool) (l : dirst) (start : string) (incl : bool) (limit : nat) (p : string)
          (ans : list bool) : hres :=
   match l with
-  | [] => {| h_vis := []; h_ans := ans |}
+  | [] => {| h_vis := []; h_ans := ans; h_stop := false |}
   | e :: l' =>
-      if negb (String.prefix p (ename e)) then {| h_vis := []; h_ans := ans |}
+      if negb (String.prefix p (ename e)) then {| h_vis := []; h_ans := ans; h_stop := false |}
       else if String.eqb (ename e) "" then lvl_iter_s ms l' start incl limit p ans
       else if String.eqb (ename e) start && negb incl then lvl_iter_s ms l' start incl limit p ans
       else match limit with
-           | O => {| h_vis := []; h_ans := ans |}
+           | O => {| h_vis := []; h_ans := ans; h_stop := false |}
            | S limit' =>
                let st := cb_step ms ans e in
                if snd st then
                  let h := lvl_iter_s ms l' start incl limit' p (fst st) in
-                 {| h_vis := e :: h_vis h; h_ans := h_ans h |}
-               else {| h_vis := [e]; h_ans := fst st |}
+                 {| h_vis := e :: h_vis h; h_ans := h_ans h; h_stop := h_stop h |}
+               else {| h_vis := [e]; h_ans := fst st; h_stop := true |}
            end
   end.
 
 (* reference store: `for _, e := range batch { lastFileName = e.Name(); if !eachEntryFunc(e) { break } }` *)
 Fixpoint hand (ms : string -> bool) (batch : list entry) (ans : list bool) : hres :=
   match batch with
-  | [] => {| h_vis := []; h_ans := ans |}
+  | [] => {| h_vis := []; h_ans := ans; h_stop := false |}
   | e :: b =>
       let st := cb_step ms ans e in
-      if snd st then let h := hand ms b (fst st) in {| h_vis := e :: h_vis h; h_ans := h_ans h |}
-      else {| h_vis := [e]; h_ans := fst st |}
+      if snd st then let h := hand ms b (fst st) in {| h_vis := e :: h_vis h; h_ans := h_ans h; h_stop := h_stop h |}
+      else {| h_vis := [e]; h_ans := fst st; h_stop := true |}
   end.
 
 Record bres := { b_em : list entry; b_last : string; b_ans : list bool; b_stop : bool }.
@@ -390,38 +395,39 @@ Fixpoint pf_batch_s (ms : string -> bool) (p : string) (need : nat) (batch : lis
       else pf_batch_s ms p need b' (ename e) ans
   end.
 
+(* (entries handed to the chain, lastFileName, answers left, did the chain return false) *)
 Fixpoint pf_loop_s (fuel : nat) (ms : string -> bool) (d : dirst) (limit : nat) (p last : string) (count : nat)
-         (batch acc : list entry) (ans : list bool) : option (list entry * string * list bool) :=
+         (batch acc : list entry) (ans : list bool) : option (list entry * string * list bool * bool) :=
   if Nat.ltb count limit && negb (is_nil batch) then
     match fuel with
     | O => None
     | S f =>
         let r := pf_batch_s ms p (limit - count) batch last ans in
-        if b_stop r then Some (acc ++ b_em r, b_last r, b_ans r)
+        if b_stop r then Some (acc ++ b_em r, b_last r, b_ans r, true)
         else
           let count' := count + length (b_em r) in
           let d' := del_expired (b_em r) d in
           if Nat.ltb count' limit then
             pf_loop_s f ms d' limit p (b_last r) count' (mem_list d' (b_last r) false limit) (acc ++ b_em r) (b_ans r)
-          else Some (acc ++ b_em r, b_last r, b_ans r)
+          else Some (acc ++ b_em r, b_last r, b_ans r, false)
     end
-  else Some (acc, last, ans).
+  else Some (acc, last, ans, false).
 
 Definition wrapper_list_s (s : store) (ms : string -> bool) (d : dirst) (start : string) (incl : bool) (limit : nat)
-           (p : string) (ans : list bool) : option (wres * list bool) :=
+           (p : string) (ans : list bool) : option (wres * list bool * bool) :=
   match s with
   | Lvl =>
       let h := lvl_iter_s ms (seek (if negb (String.eqb start "") && String.leb p start then start else p) d)
                           start incl limit p ans in
-      Some ({| w_vis := h_vis h; w_last := last_name (h_vis h) |}, h_ans h)
+      Some ({| w_vis := h_vis h; w_last := last_name (h_vis h) |}, h_ans h, h_stop h)
   | Gen =>
       if String.eqb p "" then
         let h := hand ms (mem_list d start incl limit) ans in
-        Some ({| w_vis := h_vis h; w_last := last_name (h_vis h) |}, h_ans h)
+        Some ({| w_vis := h_vis h; w_last := last_name (h_vis h) |}, h_ans h, h_stop h)
       else
         let b1 := mem_list d start incl limit in
         match pf_loop_s (S (length d)) ms d limit p (last_name b1) 0 b1 [] ans with
-        | Some (v, last, a) => Some ({| w_vis := v; w_last := last |}, a)
+        | Some (v, last, a, st) => Some ({| w_vis := v; w_last := last |}, a, st)
         | None => None
         end
   end.
@@ -430,9 +436,11 @@ Record sres := {
   s_exp : nat;              (* expiredCount *)
   s_miss : nat;             (* missedCount *)
   s_last : string;          (* lastFileName *)
+  s_live : list string;     (* names handed to doListValidEntries' eachFunc (the unexpired ones), in order *)
   s_names : list string;    (* names handed to the caller's callback, in order *)
   s_dir : dirst;
-  s_ans : list bool         (* answers left *)
+  s_ans : list bool;        (* answers left *)
+  s_stop : bool             (* `stopped`: the callback returned false *)
 }.
 
 (* Filer.doListDirectoryEntries under the pattern closure *)
@@ -440,20 +448,22 @@ Definition do_list_s (s : store) (ms : string -> bool) (d : dirst) (start : stri
            (p : string) (ans : list bool) : option sres :=
   match wrapper_list_s s ms d start incl limit p ans with
   | None => None
-  | Some (w, a) =>
+  | Some (w, a, st) =>
       let v := w_vis w in
       Some {| s_exp := length (filter eexp v);
               s_miss := length (filter ms (map ename (filter elive v)));
               s_last := w_last w;
+              s_live := map ename (filter elive v);
               s_names := filter (fun n => negb (ms n)) (map ename (filter elive v));
-              s_dir := del_expired v d; s_ans := a |}
+              s_dir := del_expired v d; s_ans := a; s_stop := st |}
   end.
 
-(* Filer.doListValidEntries: the refill loop runs whatever the callback answered *)
+(* Filer.doListValidEntries: `for expiredCount > 0 && err == nil && !stopped` *)
 Fixpoint valid_loop_s (fuel : nat) (s : store) (ms : string -> bool) (p : string) (r : sres) : option sres :=
   match s_exp r with
   | O => Some r
   | S _ =>
+      if s_stop r then Some r else
       match fuel with
       | O => None
       | S f =>
@@ -462,12 +472,13 @@ Fixpoint valid_loop_s (fuel : nat) (s : store) (ms : string -> bool) (p : string
           | Some r' =>
               valid_loop_s f s ms p
                 {| s_exp := s_exp r'; s_miss := s_miss r + s_miss r'; s_last := keep_last (s_last r) (s_last r');
-                   s_names := s_names r ++ s_names r'; s_dir := s_dir r'; s_ans := s_ans r' |}
+                   s_live := s_live r ++ s_live r'; s_names := s_names r ++ s_names r'; s_dir := s_dir r';
+                   s_ans := s_ans r'; s_stop := s_stop r' |}
           end
       end
   end.
 
-(* Filer.doListPatternMatchedEntries *)
+(* Filer.doListPatternMatchedEntries (doListValidEntries starts with a fresh `stopped`) *)
 Definition pattern_list_s (s : store) (ms : string -> bool) (d : dirst) (start : string) (incl : bool) (limit : nat)
            (p : string) (ans : list bool) : option sres :=
   match do_list_s s ms d start incl limit p ans with
@@ -475,11 +486,14 @@ Definition pattern_list_s (s : store) (ms : string -> bool) (d : dirst) (start :
   | Some r => valid_loop_s (S (length d)) s ms p r
   end.
 
-(* Filer.StreamListDirectoryEntries' refill loop: runs whatever the callback answered *)
+(* Filer.StreamListDirectoryEntries: `for missedCount > 0 && err == nil && !stopped`.  Its `stopped`
+   is false whenever a round starts, and a round sets it exactly when doListValidEntries' own flag
+   is set (the pattern closure returns false only if eachFunc did): one flag per round suffices. *)
 Fixpoint stream_loop_s (fuel : nat) (s : store) (ms : string -> bool) (p : string) (r : sres) : option sres :=
   match s_miss r with
   | O => Some r
   | S _ =>
+      if s_stop r then Some r else
       match fuel with
       | O => None
       | S f =>
@@ -488,7 +502,8 @@ Fixpoint stream_loop_s (fuel : nat) (s : store) (ms : string -> bool) (p : strin
           | Some r' =>
               stream_loop_s f s ms p
                 {| s_exp := s_exp r'; s_miss := s_miss r'; s_last := keep_last (s_last r) (s_last r');
-                   s_names := s_names r ++ s_names r'; s_dir := s_dir r'; s_ans := s_ans r' |}
+                   s_live := s_live r ++ s_live r'; s_names := s_names r ++ s_names r'; s_dir := s_dir r';
+                   s_ans := s_ans r'; s_stop := s_stop r' |}
           end
       end
   end.
@@ -509,7 +524,7 @@ Definition stream_list_s (s : store) (d : dirst) (start : string) (incl : bool) 
 
 (* FilerServer.ListEntries (gRPC): overall limit [limit], page size [pag] = min(PaginationSize, limit);
    the callback sends the entry, then `limit--; if limit == 0 { return false }; return true`
-   (limit is a signed int: after 0 it goes negative and the callback answers true again).
+   (after the false it is not called again).
    [sent] in pages; the loop `for limit > 0` ends when a call sent nothing or the limit is used up. *)
 Definition grpc_answers (limit : nat) : list bool := repeat true (limit - 1) ++ [false].
 
@@ -548,8 +563,13 @@ Definition stop_respected (ans : list bool) (names : list string) : bool :=
   | None => true
   end.
 
-(* finding 1: some answer of the callback is false *)
-Definition trig_stop (ans : list bool) : bool := negb (forallb (fun b => b) ans).
+(* number of entries a listing with limit [limit] hands to a callback with answers [ans]:
+   up to and including the one it refuses *)
+Definition stop_want (limit : nat) (ans : list bool) : nat :=
+  match first_false ans with
+  | Some k => Nat.min limit (S k)
+  | None => limit
+  end.
 
 (* ---------- specification ---------- *)
 Definition spec_match (prefix pat excl : string) (n : string) : bool :=
